@@ -144,6 +144,11 @@ RULES += [_R2 % (i, bt, e) for i, (bt, e) in enumerate([
     ('triple', 'modify bond (a,b,single) modify number of radical (a, 2) modify number of radical (b, 2)'),
     ('aromatic', 'modify bond (a,b,single)'), ('any', 'modify bond (a,b,single)'), ('quadruple', 'decrease bond order (a,b) increase number of radical (a) increase number of radical (b)'),
     ('quadruple', 'break quadruple bond (a,b) modify number of radical (a, 4) modify number of radical (b, 4)')])]
+# a bond removed and then formed again on the same labelled pair
+RULES += ['rule bf{ reactant m{ C. labeled a C. labeled b single bond to a } break bond (a,b) form double bond (a,b) decrease number of radical (a) decrease number of radical (b) }',
+          'rule bf2{ reactant m{ C labeled a C labeled b single bond to a } break bond (a,b) form bond (a,b) }',
+          'rule df{ reactant m{ C labeled a C labeled b double bond to a } decrease bond order (a,b) decrease bond order (a,b) form bond (a,b) }',
+          'rule fb{ reactant m{ C labeled a C labeled b single bond to a } form bond (a,b) decrease number of radical (a) decrease number of radical (b) }']
 # atom-type modification with an atom prefix in the new type
 RULES += ['rule m{ reactant r{ C labeled c1} modify atomtype (c1, %s C)}' % p for p in ('nonringatom', 'ringatom', 'aromatic', 'nonaromatic', 'allylic')]
 # numbers at and beyond the interpreter's integer-conversion limit (sys.get_int_max_str_digits() = 4300 digits)
